@@ -390,9 +390,8 @@ def ValRT (fnSig : Json → Except DecErr (List Ty × List Ty × List String)) (
     keys are the definitions' names, every definition is owned by the extension, an operation
     definition without type scheme is binary (`OpDefSig.__init__`), a type scheme names the
     extension among its requirements (`add_op_def`), can be serialised and is within the fuel, and
-    every value satisfies the value layer's round trip. -/
-structure WellFormed (fnSig : Json → Except DecErr (List Ty × List Ty × List String)) (fuel : Nat)
-    (e : Extension) : Prop where
+    every value satisfies `P`. -/
+structure WellFormedWith (P : Value → Prop) (fuel : Nat) (e : Extension) : Prop where
   typeKeys : Dict.NodupKeys e.types
   opKeys : Dict.NodupKeys e.operations
   valueKeys : Dict.NodupKeys e.values
@@ -400,7 +399,15 @@ structure WellFormed (fnSig : Json → Except DecErr (List Ty × List Ty × List
   ops : ∀ ko ∈ e.operations, ko.1 = ko.2.name ∧ ko.2.owner = some e.name ∧
     (ko.2.sig.poly = none → ko.2.sig.binary = true) ∧
     ∀ p, ko.2.sig.poly = some p → e.name ∈ p.reqs ∧ (∃ j, encTy p.toTy = .ok j) ∧ p.toTy.depth ≤ fuel
-  values : ∀ kv ∈ e.values, kv.1 = kv.2.name ∧ kv.2.owner = some e.name ∧ ValRT fnSig fuel kv.2.val
+  values : ∀ kv ∈ e.values, kv.1 = kv.2.name ∧ kv.2.owner = some e.name ∧ P kv.2.val
+
+theorem WellFormedWith.mono {P Q : Value → Prop} {fuel : Nat} {e : Extension} (hPQ : ∀ v, P v → Q v)
+    (h : WellFormedWith P fuel e) : WellFormedWith Q fuel e :=
+  { h with values := fun kv hkv => ⟨(h.values kv hkv).1, (h.values kv hkv).2.1, hPQ _ (h.values kv hkv).2.2⟩ }
+
+/-- well-formed, every value satisfying the value layer's round trip `ValRT` -/
+abbrev WellFormed (fnSig : Json → Except DecErr (List Ty × List Ty × List String)) (fuel : Nat)
+    (e : Extension) : Prop := WellFormedWith (ValRT fnSig fuel) fuel e
 
 /-! ### the documents `encExt` writes (total forms, for the proofs only) -/
 
@@ -748,6 +755,367 @@ theorem decExt_encExt (so : SetOrd) (fnSig : Json → Except DecErr (List Ty × 
     obtain ⟨k, v⟩ := kv
     cases v
     simp_all
+
+
+/-! ### the reloaded extension is the same extension -/
+
+theorem polyEq_reload (so : SetOrd) (n : String) (p : Poly) (hn : n ∈ p.reqs) :
+    PolyEq p ((((normPoly p).withReqs so [n]).withReqs so [n]).withReqs so [n]) := by
+  refine ⟨rfl, rfl, rfl, ?_⟩
+  simp only [Poly.withReqs, normPoly]
+  have h1 : SetEq (so.union p.reqs [n]) p.reqs := SetEq.union_of_mem so _ n hn
+  have h2 : SetEq (so.union (so.union p.reqs [n]) [n]) (so.union p.reqs [n]) :=
+    SetEq.union_of_mem so _ n (mem_union_self so _ n)
+  have h3 : SetEq (so.union (so.union (so.union p.reqs [n]) [n]) [n]) (so.union (so.union p.reqs [n]) [n]) :=
+    SetEq.union_of_mem so _ n (mem_union_self so _ n)
+  exact h3.trans (h2.trans h1)
+
+/-- **`reload e` is `e`** as far as the property claims (`ExtEq`). -/
+theorem extEq_reload (so : SetOrd) (fnSig : Json → Except DecErr (List Ty × List Ty × List String)) (fuel : Nat)
+    (e : Extension) (h : WellFormed fnSig fuel e) : ExtEq e (reload so fnSig fuel e) where
+  name := rfl
+  version := rfl
+  reqs := SetEq.union_nil so _
+  types := rfl
+  ops := by
+    refine DictRel.map_right OpDefEq (reloadOp so e.name) e.operations (fun ko hko => ?_)
+    obtain ⟨_, ho, _, hp⟩ := h.ops ko hko
+    refine ⟨ho.symm, rfl, rfl, rfl, rfl, ?_⟩
+    cases hpoly : ko.2.sig.poly with
+    | none => simp [reloadOp, hpoly, PolyOptEq]
+    | some p =>
+      simp only [reloadOp, hpoly, Option.map_some, PolyOptEq]
+      exact polyEq_reload so e.name p (hp p hpoly).1
+  values := by
+    refine DictRel.map_right ValEq (fun v => { v with val := reVal fnSig fuel v.val }) e.values (fun kv hkv => ?_)
+    exact ⟨rfl, rfl, (valRT_reVal (h.values kv hkv).2.2).2.2⟩
+
+
+/-! ### the same extension serialises to the same document -/
+
+theorem encExt_inv (e : Extension) (j : Json) (h : encExt e = .ok j) :
+    ∃ ts vs os, encEntries encTypeDef e.types = .ok ts ∧ encEntries encExtValue e.values = .ok vs ∧
+      encEntries encOpDef e.operations = .ok os ∧ j = docJson e ts vs os := by
+  unfold encExt at h
+  cases h1 : encEntries encTypeDef e.types with
+  | error err => simp [h1, throw, throwThe, MonadExceptOf.throw] at h
+  | ok ts =>
+    cases h2 : encEntries encExtValue e.values with
+    | error err => simp [h1, h2, throw, throwThe, MonadExceptOf.throw] at h
+    | ok vs =>
+      cases h3 : encEntries encOpDef e.operations with
+      | error err => simp [h1, h2, h3, throw, throwThe, MonadExceptOf.throw] at h
+      | ok os =>
+        simp [h1, h2, h3, pure, Except.pure] at h
+        exact ⟨ts, vs, os, rfl, rfl, rfl, h.symm⟩
+
+theorem encEntries_rel {α : Type} (f : α → Except Err Json) (R : α → α → Prop) (C : Json → Json)
+    (hR : ∀ a b, R a b → ∀ j, f a = .ok j → ∃ j', f b = .ok j' ∧ C j' = C j) :
+    ∀ (d d' : List (String × α)), DictRel R d d' → ∀ js, encEntries f d = .ok js →
+      ∃ js', encEntries f d' = .ok js' ∧
+        js'.map (fun kv => (kv.1, C kv.2)) = js.map (fun kv => (kv.1, C kv.2))
+  | [], [], _, js, h => by
+    simp [encEntries, pure, Except.pure] at h
+    subst h
+    exact ⟨[], rfl, rfl⟩
+  | [], _ :: _, hr, _, _ => by simp [DictRel] at hr
+  | _ :: _, [], hr, _, _ => by simp [DictRel] at hr
+  | (k, a) :: rest, (l, b) :: rest', hr, js, h => by
+    obtain ⟨hkl, hab, hrest⟩ := hr
+    subst hkl
+    unfold encEntries at h
+    cases h1 : f a with
+    | error err => simp [h1, throw, throwThe, MonadExceptOf.throw] at h
+    | ok j =>
+      cases h2 : encEntries f rest with
+      | error err => simp [h1, h2, throw, throwThe, MonadExceptOf.throw] at h
+      | ok js0 =>
+        simp [h1, h2, pure, Except.pure] at h
+        subst h
+        obtain ⟨j', hj', hc⟩ := hR a b hab j h1
+        obtain ⟨js', hjs', hcs⟩ := encEntries_rel f R C hR rest rest' hrest js0 h2
+        refine ⟨(k, j') :: js', ?_, ?_⟩
+        · simp [encEntries, hj', hjs', pure, Except.pure]
+        · simp [hc, hcs]
+
+theorem canonDoc_docJson (e : Extension) (ts vs os : List (String × Json)) :
+    canonDoc (docJson e ts vs os) =
+      .obj [("version", .str e.version), ("name", .str e.name),
+        ("runtime_reqs", encStrs (sortDedup e.runtimeReqs)), ("types", .obj ts), ("values", .obj vs),
+        ("operations", .obj (os.map fun kv => (kv.1, canonOpDoc kv.2)))] := by
+  simp [canonDoc, docJson, mapKey, mapVals, sortSet_encStrs]
+
+theorem canonOpDoc_null (o : String) (od : OpDef) :
+    canonOpDoc (opDefJson o od .null) = opDefJson o od .null := by
+  simp [canonOpDoc, opDefJson, mapKey]
+
+theorem canonOpDoc_poly (o : String) (od : OpDef) (ps : List TypeParam) (ji jo : List Json) (r : List String) :
+    canonOpDoc (opDefJson o od (polyJson ps ji jo r)) = opDefJson o od (polyJson ps ji jo (sortDedup r)) := by
+  simp [canonOpDoc, opDefJson, polyJson, funcJson, mapKey, sortSet_encStrs]
+
+theorem encOpDef_inv (od : OpDef) (j : Json) (h : encOpDef od = .ok j) :
+    ∃ o s, od.owner = some o ∧ encSig od.sig.poly = .ok s ∧ j = opDefJson o od s := by
+  unfold encOpDef at h
+  cases ho : od.owner with
+  | none => simp [ho, throw, throwThe, MonadExceptOf.throw] at h
+  | some o =>
+    cases hs : encSig od.sig.poly with
+    | error err => simp [ho, hs, throw, throwThe, MonadExceptOf.throw] at h
+    | ok s =>
+      simp [ho, hs, pure, Except.pure] at h
+      exact ⟨o, s, rfl, rfl, h.symm⟩
+
+theorem opDefJson_congr (o : String) (od od' : OpDef) (s : Json) (h1 : od'.name = od.name)
+    (h2 : od'.description = od.description) (h3 : od'.misc = od.misc) (h4 : od'.sig.binary = od.sig.binary) :
+    opDefJson o od' s = opDefJson o od s := by
+  simp [opDefJson, h1, h2, h3, h4]
+
+/-- related operation definitions serialise to the same document up to the requirement set -/
+theorem opDefEq_enc (od od' : OpDef) (h : OpDefEq od od') (j : Json) (hj : encOpDef od = .ok j) :
+    ∃ j', encOpDef od' = .ok j' ∧ canonOpDoc j' = canonOpDoc j := by
+  obtain ⟨ho, hn, hd, hm, hb, hp⟩ := h
+  obtain ⟨o, s, hown, hs, rfl⟩ := encOpDef_inv od j hj
+  cases hpoly : od.sig.poly with
+  | none =>
+    cases hpoly' : od'.sig.poly with
+    | some p' => simp [hpoly, hpoly', PolyOptEq] at hp
+    | none =>
+      simp [hpoly, encSig, pure, Except.pure] at hs
+      subst hs
+      refine ⟨opDefJson o od' .null, encOpDef_ok o od' .null (ho.trans hown) (by simp [hpoly', encSig, pure, Except.pure]), ?_⟩
+      rw [opDefJson_congr o od od' .null hn hd hm hb]
+  | some p =>
+    cases hpoly' : od'.sig.poly with
+    | none => simp [hpoly, hpoly', PolyOptEq] at hp
+    | some p' =>
+      simp only [hpoly, hpoly', PolyOptEq] at hp
+      obtain ⟨hps, hi, hout, hr⟩ := hp
+      simp only [hpoly, encSig] at hs
+      cases he : encTy p.toTy with
+      | error err => simp [he, throw, throwThe, MonadExceptOf.throw] at hs
+      | ok js =>
+        simp [he, pure, Except.pure] at hs
+        subst hs
+        obtain ⟨ji, jo, hji, hjo, rfl⟩ := (encTy_poly_ok p.params p.inp p.out p.reqs js).1 he
+        have he' : encTy p'.toTy = .ok (polyJson p.params ji jo p'.reqs) := by
+          simp only [Poly.toTy, hps, hi, hout]
+          refine (encTy_poly_ok _ _ _ _ _).2 ⟨ji, jo, ?_, ?_, rfl⟩
+          · rw [encRow_normRow _ (fun t _ => encTy_norm t)]; exact hji
+          · rw [encRow_normRow _ (fun t _ => encTy_norm t)]; exact hjo
+        refine ⟨opDefJson o od' (polyJson p.params ji jo p'.reqs),
+          encOpDef_ok o od' _ (ho.trans hown) (by simp [hpoly', encSig, he', pure, Except.pure]), ?_⟩
+        rw [canonOpDoc_poly, canonOpDoc_poly, sortDedup_eq_of_setEq hr, opDefJson_congr o od od' _ hn hd hm hb]
+
+theorem valEq_enc (v v' : ExtValue) (h : ValEq v v') : encExtValue v' = encExtValue v := by
+  obtain ⟨ho, hn, hv⟩ := h
+  simp [encExtValue, ho, hn, hv]
+
+theorem encEntries_congr {α : Type} (f : α → Except Err Json) (R : α → α → Prop) (hR : ∀ a b, R a b → f b = f a) :
+    ∀ (d d' : List (String × α)), DictRel R d d' → encEntries f d' = encEntries f d
+  | [], [], _ => rfl
+  | [], _ :: _, hr => by simp [DictRel] at hr
+  | _ :: _, [], hr => by simp [DictRel] at hr
+  | (k, a) :: rest, (l, b) :: rest', hr => by
+    obtain ⟨hkl, hab, hrest⟩ := hr
+    subst hkl
+    simp [encEntries, hR a b hab, encEntries_congr f R hR rest rest' hrest]
+
+/-- **Equal extensions (in the sense of `ExtEq`) serialise to the same document** up to the order
+    of the two set-typed requirement lists. -/
+theorem extEq_enc (e e' : Extension) (h : ExtEq e e') (j : Json) (hj : encExt e = .ok j) :
+    ∃ j', encExt e' = .ok j' ∧ canonDoc j' = canonDoc j := by
+  obtain ⟨ts, vs, os, h1, h2, h3, rfl⟩ := encExt_inv e j hj
+  obtain ⟨os', h3', hos⟩ := encEntries_rel encOpDef OpDefEq canonOpDoc opDefEq_enc _ _ h.ops os h3
+  have h2' : encEntries encExtValue e'.values = .ok vs := by
+    rw [encEntries_congr encExtValue ValEq valEq_enc _ _ h.values]; exact h2
+  have h1' : encEntries encTypeDef e'.types = .ok ts := by rw [h.types]; exact h1
+  refine ⟨docJson e' ts vs os', encExt_eq e' ts vs os' h1' h2' h3', ?_⟩
+  rw [canonDoc_docJson, canonDoc_docJson, h.name, h.version, sortDedup_eq_of_setEq h.reqs, hos]
+
+
+/-! ### the value layer's round trip for the values the serialised form can express -/
+
+mutual
+  def valDepth : Value → Nat
+    | .sum _ typ vals => max typ.depth (valsDepth vals) + 1
+    | .tuple vals => valsDepth vals + 1
+    | .function _ _ _ _ => 1
+    | .ext _ typ _ _ => typ.depth + 1
+  def valsDepth : List Value → Nat
+    | [] => 0
+    | v :: vs => max (valDepth v) (valsDepth vs)
+end
+
+def isSumTy : Ty → Bool
+  | .sum _ => true
+  | .unitSum _ => true
+  | _ => false
+
+mutual
+  /-- values whose serialised form decodes: the `typ` of a general sum is a sum type, the type of an
+      extension constant is a member of the serialised `Type` union, the body of a function constant
+      has a root operation with a readable inner signature -/
+  def ValOK (fnSig : Json → Except DecErr (List Ty × List Ty × List String)) : Value → Prop
+    | .sum _ typ vals => isSumTy typ = true ∧ ValsOK fnSig vals
+    | .tuple vals => ValsOK fnSig vals
+    | .function _ _ _ body => ∃ s, fnSig body = .ok s
+    | .ext _ typ _ _ => typ.isPoly = false
+  def ValsOK (fnSig : Json → Except DecErr (List Ty × List Ty × List String)) : List Value → Prop
+    | [] => True
+    | v :: vs => ValOK fnSig v ∧ ValsOK fnSig vs
+end
+
+theorem decSumType_enc (typ : Ty) (tj : Json) (f : Nat) (hs : isSumTy typ = true) (he : encTy typ = .ok tj)
+    (hd : typ.depth ≤ f) : ∃ typ', decSumType f tj = .ok typ' ∧ encTy typ' = .ok tj := by
+  cases typ with
+  | sum rows =>
+    refine ⟨_, decSumType_encTy_sum rows tj f he (by simp [Ty.depth] at hd; omega), ?_⟩
+    rw [encTy_norm]; exact he
+  | unitSum n => exact ⟨_, decSumType_encTy_unitSum n tj f he, he⟩
+  | _ => simp [isSumTy] at hs
+
+theorem encVals_cons_ok (v : Value) (vs : List Value) (js : List Json) :
+    encVals (v :: vs) = .ok js ↔ ∃ j js', encVal v = .ok j ∧ encVals vs = .ok js' ∧ js = j :: js' := by
+  rw [encVals]
+  cases encVal v <;> cases encVals vs <;> simp [bind, Except.bind, pure, Except.pure, eq_comm]
+
+theorem asNat_int_nat (n : Nat) : asNat (.int n) = .ok n := by
+  simp [asNat, asInt, bind, Except.bind, pure, Except.pure]
+
+mutual
+  theorem valRT_aux (fnSig : Json → Except DecErr (List Ty × List Ty × List String)) :
+      ∀ (v : Value) (fuel : Nat) (j : Json), ValOK fnSig v → encVal v = .ok j → valDepth v ≤ fuel →
+        ∃ v', decVal fnSig fuel j = .ok v' ∧ encVal v' = .ok j
+    | .sum tag typ vals, fuel, j, hok, he, hd => by
+      obtain ⟨f, rfl, hf⟩ := fuel_succ (n := max typ.depth (valsDepth vals)) (by simpa [valDepth] using hd)
+      obtain ⟨hs, hvs⟩ := hok
+      rw [encVal] at he
+      cases ht : encTy typ with
+      | error e => simp [ht, bind, Except.bind] at he
+      | ok tj =>
+        cases hv : encVals vals with
+        | error e => simp [ht, hv, bind, Except.bind] at he
+        | ok vjs =>
+          simp [ht, hv, bind, Except.bind, pure, Except.pure] at he
+          subst he
+          obtain ⟨typ', hdt, het⟩ := decSumType_enc typ tj f hs ht (by omega)
+          obtain ⟨vals', hdv, hev⟩ := valsRT_aux fnSig vals f vjs hvs hv (by omega)
+          refine ⟨.sum tag typ' vals', ?_, ?_⟩
+          · simp [decVal, asObj, req, field, asStr, asArr, asNat_int_nat, hdt, hdv, bind, Except.bind, pure, Except.pure]
+          · simp [encVal, het, hev, bind, Except.bind, pure, Except.pure]
+    | .tuple vals, fuel, j, hok, he, hd => by
+      obtain ⟨f, rfl, hf⟩ := fuel_succ (n := valsDepth vals) (by simpa [valDepth] using hd)
+      rw [encVal] at he
+      cases hv : encVals vals with
+      | error e => simp [hv, bind, Except.bind] at he
+      | ok vjs =>
+        simp [hv, bind, Except.bind, pure, Except.pure] at he
+        subst he
+        obtain ⟨vals', hdv, hev⟩ := valsRT_aux fnSig vals f vjs hok hv hf
+        refine ⟨.tuple vals', ?_, ?_⟩
+        · simp [decVal, asObj, req, field, asStr, asArr, hdv, bind, Except.bind, pure, Except.pure]
+        · simp [encVal, hev, bind, Except.bind, pure, Except.pure]
+    | .function i o r body, fuel, j, hok, he, hd => by
+      obtain ⟨f, rfl, _⟩ := fuel_succ (n := 0) (by simpa [valDepth] using hd)
+      obtain ⟨⟨i', o', r'⟩, hs⟩ := hok
+      simp [encVal, pure, Except.pure] at he
+      subst he
+      refine ⟨.function i' o' r' body, ?_, ?_⟩
+      · simp [decVal, asObj, req, field, asStr, hs, bind, Except.bind, pure, Except.pure]
+      · simp [encVal, pure, Except.pure]
+    | .ext name typ payload exts, fuel, j, hok, he, hd => by
+      obtain ⟨f, rfl, hf⟩ := fuel_succ (n := typ.depth) (by simpa [valDepth] using hd)
+      rw [encVal] at he
+      cases ht : encTy typ with
+      | error e => simp [ht, bind, Except.bind] at he
+      | ok tj =>
+        simp [ht, bind, Except.bind, pure, Except.pure] at he
+        subst he
+        have hdt := decTy_encTy typ tj f ht hok hf
+        refine ⟨.ext name (Ty.norm typ) payload exts, ?_, ?_⟩
+        · simp [decVal, asObj, req, field, asStr, hdt, decStrs_encStrs, bind, Except.bind, pure, Except.pure]
+        · simp [encVal, encTy_norm, ht, bind, Except.bind, pure, Except.pure]
+  theorem valsRT_aux (fnSig : Json → Except DecErr (List Ty × List Ty × List String)) :
+      ∀ (vs : List Value) (fuel : Nat) (js : List Json), ValsOK fnSig vs → encVals vs = .ok js →
+        valsDepth vs ≤ fuel → ∃ vs', js.mapM (decVal fnSig fuel) = .ok vs' ∧ encVals vs' = .ok js
+    | [], fuel, js, _, he, _ => by
+      simp [encVals, pure, Except.pure] at he
+      subst he
+      exact ⟨[], rfl, rfl⟩
+    | v :: vs, fuel, js, hok, he, hd => by
+      obtain ⟨j, js', hj, hjs, rfl⟩ := (encVals_cons_ok v vs js).1 he
+      have hd' : valDepth v ≤ fuel ∧ valsDepth vs ≤ fuel := by simp [valsDepth] at hd; omega
+      obtain ⟨v', hdv, hev⟩ := valRT_aux fnSig v fuel j hok.1 hj hd'.1
+      obtain ⟨vs', hdvs, hevs⟩ := valsRT_aux fnSig vs fuel js' hok.2 hjs hd'.2
+      refine ⟨v' :: vs', ?_, ?_⟩
+      · rw [ExceptList.mapM_cons, hdv, hdvs]
+      · exact (encVals_cons_ok v' vs' (j :: js')).2 ⟨j, js', hev, hevs, rfl⟩
+end
+
+/-- **The value layer's round trip** for every serialisable value of the decodable shape:
+    the hypothesis `ValRT` of the extension round trip holds. -/
+theorem valRT_of_ok (fnSig : Json → Except DecErr (List Ty × List Ty × List String)) (fuel : Nat) (v : Value)
+    (hok : ValOK fnSig v) (henc : ∃ j, encVal v = .ok j) (hd : valDepth v ≤ fuel) : ValRT fnSig fuel v := by
+  obtain ⟨j, hj⟩ := henc
+  obtain ⟨v', h1, h2⟩ := valRT_aux fnSig v fuel j hok hj hd
+  exact ⟨j, v', hj, h1, h2⟩
+
+
+/-- well-formed, every value of the serialisable, decodable shape (no codec hypothesis left) -/
+abbrev WellFormedS (fnSig : Json → Except DecErr (List Ty × List Ty × List String)) (fuel : Nat)
+    (e : Extension) : Prop :=
+  WellFormedWith (fun v => ValOK fnSig v ∧ (∃ j, encVal v = .ok j) ∧ valDepth v ≤ fuel) fuel e
+
+theorem WellFormedS.wf {fnSig : Json → Except DecErr (List Ty × List Ty × List String)} {fuel : Nat}
+    {e : Extension} (h : WellFormedS fnSig fuel e) : WellFormed fnSig fuel e :=
+  WellFormedWith.mono (fun v hv => valRT_of_ok fnSig fuel v hv.1 hv.2.1 hv.2.2) h
+
+/-! ### `loadsFrom` -/
+
+theorem optParamsBeq_sound : ∀ (a b : Option (List TypeParam)), optParamsBeq a b = true → a = b
+  | none, none, _ => rfl
+  | some a, some b, h => by simp only [optParamsBeq] at h; rw [(TypeParam.beqList_iff a b).1 h]
+  | none, some _, h => by simp [optParamsBeq] at h
+  | some _, none, h => by simp [optParamsBeq] at h
+
+theorem typesBeq_sound : ∀ (a b : List DefSig), typesBeq a b = true → a = b
+  | [], [], _ => rfl
+  | [], _ :: _, h => by simp [typesBeq] at h
+  | _ :: _, [], h => by simp [typesBeq] at h
+  | ⟨n, ps⟩ :: as, ⟨m, qs⟩ :: bs, h => by
+    simp only [typesBeq, Bool.and_eq_true, beq_iff_eq] at h
+    obtain ⟨⟨h1, h2⟩, h3⟩ := h
+    rw [h1, (TypeParam.beqList_iff ps qs).1 h2, typesBeq_sound as bs h3]
+
+theorem opsBeq_sound : ∀ (a b : List (String × Option (List TypeParam))), opsBeq a b = true → a = b
+  | [], [], _ => rfl
+  | [], _ :: _, h => by simp [opsBeq] at h
+  | _ :: _, [], h => by simp [opsBeq] at h
+  | (n, ps) :: as, (m, qs) :: bs, h => by
+    simp only [opsBeq, Bool.and_eq_true, beq_iff_eq] at h
+    obtain ⟨⟨h1, h2⟩, h3⟩ := h
+    rw [h1, optParamsBeq_sound ps qs h2, opsBeq_sound as bs h3]
+
+theorem ExtSig.beq_sound (a b : ExtSig) (h : a.beq b = true) : a = b := by
+  obtain ⟨n, ts, os⟩ := a
+  obtain ⟨m, ts', os'⟩ := b
+  simp only [ExtSig.beq, Bool.and_eq_true, beq_iff_eq] at h
+  obtain ⟨⟨h1, h2⟩, h3⟩ := h
+  rw [h1, typesBeq_sound ts ts' h2, opsBeq_sound os os' h3]
+
+/-- what a `loadsFrom … = true` theorem says -/
+theorem loadsFrom_sound (tbl : List ExtSig) (fuel : Nat) (doc : Json) (h : loadsFrom tbl fuel doc = true) :
+    ∃ e, decExt SetOrd.std noFnSig fuel doc = .ok e ∧ findExt tbl e.name = some (sigOfExt e) ∧ OwnsOps e := by
+  unfold loadsFrom at h
+  cases hd : decExt SetOrd.std noFnSig fuel doc with
+  | error err => simp [hd] at h
+  | ok e =>
+    simp only [hd] at h
+    cases hf : findExt tbl e.name with
+    | none => simp [hf] at h
+    | some s =>
+      simp only [hf] at h
+      exact ⟨e, rfl, by rw [ExtSig.beq_sound _ _ h]; exact hf, decExt_owns _ _ _ _ _ hd⟩
 
 
 end HugrVerif.Ext
